@@ -72,15 +72,6 @@ theorem dset_dset (es : List (V × V)) {k : V} (hk : keyEq k k = true) (v w : V)
 
 /-! ### buckets -/
 
-/-- the items of the bucket `k` falls into (first match), `[]` if there is none -/
-def bucketOf : List (V × List V) → V → List V
-  | [], _ => []
-  | (k', its) :: bs, k => if keyEq k' k then its else bucketOf bs k
-
-def bhas : List (V × List V) → V → Bool
-  | [], _ => false
-  | (k', _) :: bs, k => keyEq k' k || bhas bs k
-
 theorem dget_map (g : List V → V) (bs : List (V × List V)) (k : V) :
     dget (bs.map (fun b => (b.1, g b.2))) k = if bhas bs k then some (g (bucketOf bs k)) else none := by
   induction bs with
@@ -156,10 +147,28 @@ theorem bucketOf_mem {P : V → Prop} (bs : List (V × List V)) (k : V)
     · exact (hbs (k', its) List.mem_cons_self).2
     · exact ih (fun b' hb' => hbs b' (List.mem_cons_of_mem _ hb'))
 
-/-! ### the state abstraction -/
+/-! ### induction from the right -/
 
-/-- the buckets a hand-written loop holds after `its` (no STOP among the keys) -/
-def buckets (key : Fn) (its : List V) : List (V × List V) := its.foldl (bucketStep key) []
+theorem snoc_induction {P : List V → Prop} (h0 : P []) (hs : ∀ its x, P its → P (its ++ [x])) : ∀ its, P its := by
+  intro its
+  have h : ∀ r : List V, P r.reverse := by
+    intro r
+    induction r with
+    | nil => exact h0
+    | cons x r ih => rw [List.reverse_cons]; exact hs _ _ ih
+  have h2 := h its.reverse
+  rwa [List.reverse_reverse] at h2
+
+theorem snoc_subset {its' its : List V} {x : V} (h : ∀ i ∈ its', i ∈ its) : ∀ i ∈ its' ++ [x], i ∈ its ++ [x] := by
+  intro i hi
+  rcases List.mem_append.mp hi with h1 | h1
+  · exact List.mem_append_left _ (h i h1)
+  · exact List.mem_append_right _ h1
+
+theorem isStop_eq {v : V} (h : isStop v = true) : v = .stop := by
+  cases v <;> simp [isStop] at h ⊢
+
+/-! ### the state abstraction -/
 
 def valsOf (f : Fn) (its : List V) : List V :=
   its.filterMap (fun x => if isSkip (f.val x) then none else some (f.val x))
@@ -170,31 +179,54 @@ def stateOf : Agg → List V → V
   | .max, its => pyMax its
   | .min, its => pyMin its
   | .avg, its => .list [.int ((its.map intOf).sum), .int its.length]
+  | .sample size tbl, its => .list [.int its.length, .list (refSample size tbl its).2]
   | a, its => refAgg a its
 
-/-- what `scope[ACC_TREE]` holds after the items `its` were routed to spec `s` -/
+/-- does the aggregator keep anything in the tree? (a stateless class aggregator does not) -/
+def aggHasState : Agg → Bool
+  | .clsLast | .unbound => false
+  | _ => true
+
+def aggTree (oid : Nat) (a : Agg) (its : List V) : List (V × V) :=
+  if its.isEmpty || !(aggHasState a) then [] else [(.obj oid, stateOf a its)]
+
+/-- what `scope[ACC_TREE]` holds after the items `its` were routed to spec `s` (no STOP event) -/
 def treeOf : GSpec → List V → List (V × V)
-  | .agg oid a, its => if its.isEmpty then [] else [(.obj oid, stateOf a its)]
+  | .agg oid a, its => aggTree oid a its
   | .list id f, its => if its.isEmpty then [] else [(idKey id, .list (valsOf f its))]
+  | .limit oid _ sub, its =>
+    if its.isEmpty then [] else [(.obj oid, .list [.int its.length, .dict (treeOf sub its)])]
   | .dict id _ key sub, its =>
     if its.isEmpty then []
-    else (idKey id, .dict ((buckets key its).map (fun b => (b.1, valOf sub b.2)))) ::
+    else (idKey id, .dict ((buckets key its).map (fun b => (b.1, valOfC true sub b.2)))) ::
       (buckets key its).map (fun b => (b.1, V.dict (treeOf sub b.2)))
   | _, _ => []
 
-/-! ### hypotheses are inherited by sub-lists of items -/
+theorem treeOf_nil (s : GSpec) : treeOf s [] = [] := by cases s <;> simp [treeOf, aggTree]
+
+/-! ### hypotheses that are inherited by sub-lists of items -/
 
 theorem all_subset {p : V → Bool} {xs ys : List V} (h : ∀ i ∈ ys, i ∈ xs) (hx : xs.all p = true) :
     ys.all p = true := by
   rw [List.all_eq_true] at hx ⊢
   exact fun i hi => hx i (h i hi)
 
+theorem isEmpty_subset {xs ys : List V} (h : ∀ i ∈ ys, i ∈ xs) (hx : xs.isEmpty = true) : ys.isEmpty = true := by
+  cases ys with
+  | nil => rfl
+  | cons y ys =>
+    have := h y List.mem_cons_self
+    cases xs with
+    | nil => simp at this
+    | cons _ _ => simp at hx
+
 theorem aggOk_subset {a : Agg} {xs ys : List V} (h : ∀ i ∈ ys, i ∈ xs) (hx : aggOk a xs = true) :
     aggOk a ys = true := by
   cases a <;> simp only [aggOk, Bool.or_eq_true] at hx ⊢
-  · exact hx.imp (all_subset h) (all_subset h)
-  · exact hx.imp (all_subset h) (all_subset h)
-  all_goals exact all_subset h hx
+  case max => exact hx.imp (all_subset h) (all_subset h)
+  case min => exact hx.imp (all_subset h) (all_subset h)
+  case unbound => exact isEmpty_subset h hx
+  all_goals first | exact all_subset h hx | rfl
 
 theorem wfRun_subset : ∀ (s : GSpec) {xs ys : List V}, (∀ i ∈ ys, i ∈ xs) → wfRun s xs = true → wfRun s ys = true
   | .agg _ a, _, _, h, hx => aggOk_subset h hx
@@ -206,39 +238,53 @@ theorem wfRun_subset : ∀ (s : GSpec) {xs ys : List V}, (∀ i ∈ ys, i ∈ xs
     simp only [wfRun, Bool.and_eq_true] at hx ⊢
     exact ⟨all_subset h hx.1, wfRun_subset sub h hx.2⟩
 
-theorem stopFree_subset : ∀ (b : Bool) (s : GSpec) {xs ys : List V}, (∀ i ∈ ys, i ∈ xs) →
-    stopFree b s xs = true → stopFree b s ys = true
-  | _, .agg _ a, _, _, _, hx => by cases a <;> simpa [stopFree] using hx
-  | _, .fn _, _, _, h, hx => all_subset h hx
-  | _, .list _ _, _, _, h, hx => all_subset h hx
-  | _, .limit .., _, _, _, hx => by simp [stopFree] at hx
-  | _, .nested _, _, _, h, hx => by
-    simp only [stopFree, Bool.and_eq_true] at hx ⊢
-    exact ⟨hx.1, all_subset h hx.2⟩
-  | _, .dict _ _ _ sub, _, _, h, hx => by
-    simp only [stopFree, Bool.and_eq_true] at hx ⊢
-    exact ⟨all_subset h hx.1, stopFree_subset true sub h hx.2⟩
-
-theorem keysApart_subset : ∀ (s : GSpec) {xs ys : List V}, (∀ i ∈ ys, i ∈ xs) →
-    keysApart s xs = true → keysApart s ys = true
+theorem slotApart_subset : ∀ (s : GSpec) {xs ys : List V}, (∀ i ∈ ys, i ∈ xs) →
+    slotApart s xs = true → slotApart s ys = true
   | .agg .., _, _, _, _ => rfl
   | .fn _, _, _, _, _ => rfl
   | .list .., _, _, _, _ => rfl
-  | .limit _ _ sub, _, _, h, hx => keysApart_subset sub h hx
+  | .limit _ _ sub, _, _, h, hx => slotApart_subset sub h hx
   | .nested _, _, _, h, hx => all_subset h hx
   | .dict _ _ _ sub, _, _, h, hx => by
-    simp only [keysApart, Bool.and_eq_true] at hx ⊢
-    exact ⟨all_subset h hx.1, keysApart_subset sub h hx.2⟩
+    simp only [slotApart, Bool.and_eq_true] at hx ⊢
+    exact ⟨all_subset h hx.1, slotApart_subset sub h hx.2⟩
 
-/-- the three hypotheses of the equality theorem, for the items routed to `s` -/
+theorem noSkipBelow_subset : ∀ (b : Bool) (s : GSpec) {xs ys : List V}, (∀ i ∈ ys, i ∈ xs) →
+    noSkipBelow b s xs = true → noSkipBelow b s ys = true
+  | _, .agg .., _, _, _, _ => rfl
+  | _, .list .., _, _, _, _ => rfl
+  | b, .fn _, _, _, h, hx => by
+    simp only [noSkipBelow, Bool.or_eq_true] at hx ⊢
+    exact hx.imp id (all_subset h)
+  | b, .limit _ _ sub, _, _, h, hx => noSkipBelow_subset b sub h hx
+  | b, .nested _, _, _, h, hx => by
+    simp only [noSkipBelow, Bool.and_eq_true, Bool.or_eq_true] at hx ⊢
+    exact ⟨hx.1.imp (isEmpty_subset h) id, all_subset h hx.2⟩
+  | _, .dict _ _ _ sub, _, _, h, hx => noSkipBelow_subset true sub h hx
+
+/-- the hypotheses of the theorems that are inherited by every sub-list of the items
+    (`b`: below a key level) -/
 structure Hyp (b : Bool) (s : GSpec) (its : List V) : Prop where
   wf : wfRun s its = true
-  sf : stopFree b s its = true
-  ka : keysApart s its = true
+  sa : slotApart s its = true
+  ns : noSkipBelow b s its = true
 
 theorem Hyp.subset {b : Bool} {s : GSpec} {xs ys : List V} (h : Hyp b s xs) (hs : ∀ i ∈ ys, i ∈ xs) :
     Hyp b s ys :=
-  ⟨wfRun_subset s hs h.wf, stopFree_subset b s hs h.sf, keysApart_subset s hs h.ka⟩
+  ⟨wfRun_subset s hs h.wf, slotApart_subset s hs h.sa, noSkipBelow_subset b s hs h.ns⟩
+
+theorem Hyp.sub_dict {b : Bool} {id kid : Nat} {key : Fn} {sub : GSpec} {its : List V}
+    (h : Hyp b (.dict id kid key sub) its) : Hyp true sub its := by
+  have hwf := h.wf
+  have hsa := h.sa
+  have hns := h.ns
+  simp only [wfRun, Bool.and_eq_true] at hwf
+  simp only [slotApart, Bool.and_eq_true] at hsa
+  simp only [noSkipBelow] at hns
+  exact ⟨hwf.2, hsa.2, hns⟩
+
+theorem Hyp.sub_limit {b : Bool} {oid n : Nat} {sub : GSpec} {its : List V}
+    (h : Hyp b (.limit oid n sub) its) : Hyp b sub its := ⟨h.wf, h.sa, h.ns⟩
 
 theorem apply_of_ok {f : Fn} {x : V} (h : applyOk f x = true) : f.apply x = .ok (f.val x) := by
   unfold applyOk at h
@@ -248,9 +294,6 @@ theorem apply_of_ok {f : Fn} {x : V} (h : applyOk f x = true) : f.apply x = .ok 
   | error e => simp [hf] at h
 
 /-! ### aggregators: one `agg` call extends the reference by one item -/
-
-def aggTree (oid : Nat) (a : Agg) (its : List V) : List (V × V) :=
-  if its.isEmpty then [] else [(.obj oid, stateOf a its)]
 
 theorem pyMax_snoc (y : V) (ys : List V) (x : V) :
     pyMax ((y :: ys) ++ [x]) = if pyLt (pyMax (y :: ys)) x == some true then x else pyMax (y :: ys) := by
@@ -314,70 +357,109 @@ theorem asInt_of_intLike {v : V} (h : isIntLike v = true) : asInt v = some (intO
   | none => simp [hv] at h
   | some i => simp [intOf, hv]
 
-/-- **every aggregator but First**: one `agg(target, tree)` call on the tree the earlier
-    items left returns the Python reference over all items so far, and leaves the
-    tree of all items so far -/
-theorem aggStep_spec (oid : Nat) (a : Agg) (ha : a ≠ .first) (its : List V) (x : V)
-    (hok : aggOk a (its ++ [x]) = true) :
+theorem refSample_snoc (size : Nat) (tbl : List Nat) (its : List V) (x : V) :
+    refSample size tbl (its ++ [x]) = sampleStep size tbl (refSample size tbl its) x := by
+  simp [refSample, List.foldl_append]
+
+theorem sampleStep_fst (size : Nat) (tbl : List Nat) (st : Nat × List V) (x : V) :
+    (sampleStep size tbl st x).1 = st.1 + 1 := by
+  unfold sampleStep; split <;> rfl
+
+theorem refSample_fst (size : Nat) (tbl : List Nat) (its : List V) : (refSample size tbl its).1 = its.length := by
+  induction its using snoc_induction with
+  | h0 => rfl
+  | hs its x ih => rw [refSample_snoc, sampleStep_fst, ih]; simp
+
+/-- **every aggregator**: one `agg(target, tree)` call on the tree the earlier items left
+    returns the Python reference over all items so far, and leaves the tree of all items
+    so far — unless the aggregator says STOP (First after its first item) -/
+theorem aggStep_spec (oid : Nat) (a : Agg) (its : List V) (x : V)
+    (hns : stopsAt (.agg oid a) its x = false) (hok : aggOk a (its ++ [x]) = true) :
     aggStep (.obj oid) a x (aggTree oid a its) =
       .ok (refAgg a (its ++ [x]), aggTree oid a (its ++ [x])) := by
   have hne : (its ++ [x]).isEmpty = false := by simp
   have hko := keyEq_obj oid
   cases a with
-  | first => exact absurd rfl ha
+  | first =>
+    have : its = [] := by
+      cases its with
+      | nil => rfl
+      | cons y ys => simp [stopsAt] at hns
+    subst this
+    simp [aggStep, aggTree, aggHasState, dhas, dget, dset, stateOf, refAgg]
   | max =>
     cases its with
-    | nil => simp [aggStep, aggTree, dget, dset, stateOf, refAgg, pyMax]
+    | nil => simp [aggStep, aggTree, aggHasState, dget, dset, stateOf, refAgg, pyMax]
     | cons y ys =>
       have hm := pyMax_mem y ys
       obtain ⟨r, hr⟩ := pyLt_some_of_ok (xs := (y :: ys) ++ [x]) hok
         (List.mem_append_left _ hm) (List.mem_append_right _ (List.mem_singleton.mpr rfl))
-      simp only [aggStep, aggTree, List.isEmpty_cons, Bool.false_eq_true, if_false, hne, stateOf,
-        dget_single _ _ hko, dset_single _ _ _ hko, refAgg, pyMax_snoc, hr]
+      simp only [aggStep, aggTree, aggHasState, List.isEmpty_cons, Bool.false_eq_true, Bool.not_true, Bool.or_self,
+        if_false, hne, stateOf, dget_single _ _ hko, dset_single _ _ _ hko, refAgg, pyMax_snoc, hr]
       cases r <;> simp
   | min =>
     cases its with
-    | nil => simp [aggStep, aggTree, dget, dset, stateOf, refAgg, pyMin]
+    | nil => simp [aggStep, aggTree, aggHasState, dget, dset, stateOf, refAgg, pyMin]
     | cons y ys =>
       have hm := pyMin_mem y ys
       obtain ⟨r, hr⟩ := pyLt_some_of_ok (xs := (y :: ys) ++ [x]) hok
         (List.mem_append_right _ (List.mem_singleton.mpr rfl)) (List.mem_append_left _ hm)
-      simp only [aggStep, aggTree, List.isEmpty_cons, Bool.false_eq_true, if_false, hne, stateOf,
-        dget_single _ _ hko, dset_single _ _ _ hko, refAgg, pyMin_snoc, hr]
+      simp only [aggStep, aggTree, aggHasState, List.isEmpty_cons, Bool.false_eq_true, Bool.not_true, Bool.or_self,
+        if_false, hne, stateOf, dget_single _ _ hko, dset_single _ _ _ hko, refAgg, pyMin_snoc, hr]
       cases r <;> simp
   | avg =>
     have hx : asInt x = some (intOf x) := by
       simp only [aggOk, List.all_append, Bool.and_eq_true, List.all_cons, List.all_nil, Bool.and_true] at hok
       exact asInt_of_intLike hok.2
     cases its with
-    | nil => simp [aggStep, aggTree, dget, dset, stateOf, refAgg, hx]
+    | nil => simp [aggStep, aggTree, aggHasState, dget, dset, stateOf, refAgg, hx]
     | cons y ys =>
-      simp [aggStep, aggTree, hne, stateOf, dget_single _ _ hko, dset_single _ _ _ hko, refAgg, hx,
+      simp [aggStep, aggTree, aggHasState, hne, stateOf, dget_single _ _ hko, dset_single _ _ _ hko, refAgg, hx,
         Int.toNat_natCast, List.sum_append, Int.natCast_add, Int.add_assoc]
   | count =>
     cases its with
-    | nil => simp [aggStep, aggTree, dget, dset, stateOf, refAgg, asInt]
+    | nil => simp [aggStep, aggTree, aggHasState, dget, dset, stateOf, refAgg, asInt]
     | cons y ys =>
-      simp [aggStep, aggTree, hne, stateOf, dget_single _ _ hko, dset_single _ _ _ hko, refAgg, asInt,
+      simp [aggStep, aggTree, aggHasState, hne, stateOf, dget_single _ _ hko, dset_single _ _ _ hko, refAgg, asInt,
         Int.natCast_add]
+  | clsCount =>
+    cases its with
+    | nil => simp [aggStep, aggTree, aggHasState, dget, dset, stateOf, refAgg, asInt]
+    | cons y ys =>
+      simp [aggStep, aggTree, aggHasState, hne, stateOf, dget_single _ _ hko, dset_single _ _ _ hko, refAgg, asInt,
+        Int.natCast_add]
+  | clsLast => simp [aggStep, aggTree, aggHasState, refAgg]
+  | unbound => simp [aggOk] at hok
+  | sample size tbl =>
+    cases its with
+    | nil => simp [aggStep, aggTree, aggHasState, dget, dset, stateOf, refAgg, refSample, sampleStep_fst]
+    | cons y ys =>
+      have hl : ((y :: ys).length : Int).toNat = (y :: ys).length := Int.toNat_natCast _
+      have hfst := refSample_fst size tbl (y :: ys)
+      simp only [aggStep, aggTree, aggHasState, List.isEmpty_cons, Bool.false_eq_true, Bool.not_true, Bool.or_self,
+        if_false, hne, stateOf, dget_single _ _ hko, dset_single _ _ _ hko, refAgg, hl]
+      rw [refSample_snoc, show refSample size tbl (y :: ys) = ((y :: ys).length, (refSample size tbl (y :: ys)).2) from
+        Prod.ext hfst rfl]
+      simp [sampleStep_fst]
   | sum f =>
     simp only [aggOk, List.all_append, Bool.and_eq_true, List.all_cons, List.all_nil, Bool.and_true] at hok
     have hap := apply_of_ok hok.2.1
     have hx := asInt_of_intLike hok.2.2
     have h0 : ∀ i : Int, asInt (.int i) = some i := fun _ => rfl
     cases its with
-    | nil => simp [aggStep, aggTree, dget, dset, stateOf, refAgg, hap, hx, h0]
+    | nil => simp [aggStep, aggTree, aggHasState, dget, dset, stateOf, refAgg, hap, hx, h0]
     | cons y ys =>
-      simp [aggStep, aggTree, hne, stateOf, dget_single _ _ hko, dset_single _ _ _ hko, refAgg, hap, hx, h0,
+      simp [aggStep, aggTree, aggHasState, hne, stateOf, dget_single _ _ hko, dset_single _ _ _ hko, refAgg, hap, hx, h0,
         List.sum_append, Int.add_assoc]
   | flatten f =>
     simp only [aggOk, List.all_append, Bool.and_eq_true, List.all_cons, List.all_nil, Bool.and_true] at hok
     have hap := apply_of_ok hok.2.1
     obtain ⟨ys', hys⟩ := Option.isSome_iff_exists.mp hok.2.2
     cases its with
-    | nil => simp [aggStep, aggTree, dget, dset, stateOf, refAgg, hap, hys]
+    | nil => simp [aggStep, aggTree, aggHasState, dget, dset, stateOf, refAgg, hap, hys]
     | cons y ys =>
-      simp only [aggStep, aggTree, List.isEmpty_cons, Bool.false_eq_true, if_false, hne, stateOf,
+      simp only [aggStep, aggTree, aggHasState, List.isEmpty_cons, Bool.false_eq_true, Bool.not_true, Bool.or_self,
+        if_false, hne, stateOf,
         dget_single _ _ hko, dset_single _ _ _ hko, refAgg, hap, hys, Option.getD_some,
         List.flatMap_append, List.flatMap_cons, List.flatMap_nil, List.append_nil]
   | merge f =>
@@ -387,12 +469,20 @@ theorem aggStep_spec (oid : Nat) (a : Agg) (ha : a ≠ .first) (its : List V) (x
     cases hv : f.val x with
     | dict ps =>
       cases its with
-      | nil => simp [aggStep, aggTree, dget, dset, stateOf, refAgg, hap, hv]
+      | nil => simp [aggStep, aggTree, aggHasState, dget, dset, stateOf, refAgg, hap, hv]
       | cons y ys =>
-        simp only [aggStep, aggTree, List.isEmpty_cons, Bool.false_eq_true, if_false, hne, stateOf,
+        simp only [aggStep, aggTree, aggHasState, List.isEmpty_cons, Bool.false_eq_true, Bool.not_true, Bool.or_self,
+          if_false, hne, stateOf,
           dget_single _ _ hko, dset_single _ _ _ hko, refAgg, hap, hv, Option.getD_some,
           List.foldl_append, List.foldl_cons, List.foldl_nil]
     | _ => simp [isDictV, hv] at hd
+
+/-- First after its first item: STOP, the tree as it was -/
+theorem aggStep_first_stop (oid : Nat) (its : List V) (x : V) (hne : its ≠ []) :
+    aggStep (.obj oid) .first x (aggTree oid .first its) = .ok (.stop, aggTree oid .first its) := by
+  cases its with
+  | nil => exact absurd rfl hne
+  | cons y ys => simp [aggStep, aggTree, aggHasState, stateOf, dhas, dget, keyEq_obj]
 
 /-! ### reference facts under the hypotheses -/
 
@@ -403,8 +493,6 @@ theorem cutStop_all {f : Fn} {its : List V} (h : ∀ x ∈ its, isStop (f.val x)
   | cons y ys ih =>
     simp only [List.takeWhile_cons, h y List.mem_cons_self, Bool.not_false, if_true]
     rw [ih (fun x hx => h x (List.mem_cons_of_mem _ hx))]
-
-theorem treeOf_nil (s : GSpec) : treeOf s [] = [] := by cases s <;> simp [treeOf]
 
 theorem valsOf_snoc (f : Fn) (its : List V) (x : V) :
     valsOf f (its ++ [x]) = valsOf f its ++ (if isSkip (f.val x) then [] else [f.val x]) := by
@@ -487,47 +575,248 @@ theorem bucketOf_of_not_bhas {bs : List (V × List V)} {k : V} (h : bhas bs k = 
     simp only [bhas, Bool.or_eq_false_iff] at h
     simp [bucketOf, h.1, ih h.2]
 
-theorem hasVal_of_stopFree : ∀ (s : GSpec) (b : Bool) {its : List V} {x : V}, stopFree b s its = true → x ∈ its →
-    hasVal s x = true
-  | .agg .., _, _, _, _, _ => rfl
-  | .nested _, _, _, _, _, _ => rfl
-  | .limit .., _, _, _, h, _ => by simp [stopFree] at h
-  | .fn f, _, _, x, h, hx => by
-    simp only [stopFree, List.all_eq_true, Bool.and_eq_true, Bool.not_eq_true'] at h
-    simp [hasVal, (h x hx).1]
-  | .list _ f, _, _, x, h, hx => by
-    simp only [stopFree, List.all_eq_true, Bool.not_eq_true'] at h
-    simp [hasVal, h x hx]
-  | .dict _ _ key sub, _, _, x, h, hx => by
-    simp only [stopFree, Bool.and_eq_true, List.all_eq_true, Bool.not_eq_true'] at h
-    simp [hasVal, h.1 x hx, hasVal_of_stopFree sub true h.2 hx]
+/-! ### STOP events -/
 
-/-- under the hypotheses the reference of a dict level is the plain bucket map -/
-theorem valOf_dict (id kid : Nat) (key : Fn) (sub : GSpec) (b : Bool) (its : List V)
-    (h : Hyp b (.dict id kid key sub) its) :
-    valOf (.dict id kid key sub) its = .dict ((buckets key its).map (fun b => (b.1, valOf sub b.2))) := by
-  have hsf := h.sf
-  simp only [stopFree, Bool.and_eq_true, List.all_eq_true, Bool.not_eq_true'] at hsf
-  have hcut : cutStop key its = its := cutStop_all hsf.1
+theorem eventFreeFrom_snoc (s : GSpec) : ∀ (rest done : List V) (x : V),
+    eventFreeFrom s done (rest ++ [x]) = (eventFreeFrom s done rest && !(stopsAt s (done ++ rest) x)) := by
+  intro rest
+  induction rest with
+  | nil => intro done x; simp [eventFreeFrom]
+  | cons y ys ih =>
+    intro done x
+    simp only [List.cons_append, eventFreeFrom, ih, Bool.and_assoc, List.append_assoc, List.singleton_append,
+      List.nil_append]
+
+theorem eventFree_snoc (s : GSpec) (its : List V) (x : V) :
+    eventFree s (its ++ [x]) = (eventFree s its && !(stopsAt s its x)) := by
+  simpa [eventFree] using eventFreeFrom_snoc s its [] x
+
+theorem eventFree_nil (s : GSpec) : eventFree s [] = true := rfl
+
+theorem eventFree_init {s : GSpec} {its : List V} {x : V} (h : eventFree s (its ++ [x]) = true) :
+    eventFree s its = true ∧ stopsAt s its x = false := by
+  rw [eventFree_snoc] at h
+  simpa using h
+
+/-- every bucket is either an old bucket or the bucket of `k` with `x` appended -/
+theorem addTo_mem_cases (bs : List (V × List V)) (k x : V) :
+    ∀ b ∈ addTo bs k x, b ∈ bs ∨ b.2 = bucketOf bs k ++ [x] := by
+  induction bs with
+  | nil => intro b hb; simp only [addTo, List.mem_singleton] at hb; subst hb; right; simp [bucketOf]
+  | cons b0 bs ih =>
+    obtain ⟨k', its⟩ := b0
+    intro b hb
+    simp only [addTo] at hb
+    by_cases hk : keyEq k' k = true
+    · simp only [hk, if_true] at hb
+      rcases List.mem_cons.mp hb with rfl | hb
+      · right; simp [bucketOf, hk]
+      · left; exact List.mem_cons_of_mem _ hb
+    · have hk' : keyEq k' k = false := by simpa using hk
+      simp only [hk', Bool.false_eq_true, if_false] at hb
+      rcases List.mem_cons.mp hb with rfl | hb
+      · left; exact List.mem_cons_self
+      · rcases ih b hb with h | h
+        · left; exact List.mem_cons_of_mem _ h
+        · right; simpa [bucketOf, hk'] using h
+
+theorem bucketOf_mem_or_nil (bs : List (V × List V)) (k : V) : bucketOf bs k = [] ∨ ∃ b ∈ bs, b.2 = bucketOf bs k := by
+  induction bs with
+  | nil => left; rfl
+  | cons b0 bs ih =>
+    obtain ⟨k', its⟩ := b0
+    by_cases hk : keyEq k' k = true
+    · right; exact ⟨(k', its), List.mem_cons_self, by simp [bucketOf, hk]⟩
+    · have hk' : keyEq k' k = false := by simpa using hk
+      rcases ih with h | ⟨b, hb, h⟩
+      · left; simpa [bucketOf, hk'] using h
+      · right; exact ⟨b, List.mem_cons_of_mem _ hb, by simpa [bucketOf, hk'] using h⟩
+
+/-- a key level without STOP event: no bucket has seen one -/
+theorem eventFree_buckets (id kid : Nat) (key : Fn) (sub : GSpec) :
+    ∀ its, eventFree (.dict id kid key sub) its = true → ∀ b ∈ buckets key its, eventFree sub b.2 = true := by
+  intro its
+  induction its using snoc_induction with
+  | h0 => intro _ b hb; simp [buckets] at hb
+  | hs its x ih =>
+    intro h b hb
+    obtain ⟨h1, h2⟩ := eventFree_init h
+    have ih' := ih h1
+    rw [buckets_snoc, bucketStep_eq] at hb
+    simp only [stopsAt, Bool.or_eq_false_iff, Bool.and_eq_false_imp, Bool.not_eq_true'] at h2
+    by_cases hs : isSkip (key.val x) = true
+    · simp only [hs, if_true] at hb; exact ih' b hb
+    · have hs' : isSkip (key.val x) = false := by simpa using hs
+      simp only [hs', Bool.false_eq_true, if_false] at hb
+      rcases addTo_mem_cases _ _ _ b hb with hold | hnew
+      · exact ih' b hold
+      · rw [hnew, eventFree_snoc]
+        have hb0 : eventFree sub (bucketOf (buckets key its) (key.val x)) = true := by
+          rcases bucketOf_mem_or_nil (buckets key its) (key.val x) with h0 | ⟨b', hb', h0⟩
+          · rw [h0]; rfl
+          · rw [← h0]; exact ih' b' hb'
+        simp [hb0, h2.2 hs']
+
+theorem eventFree_bucketOf (id kid : Nat) (key : Fn) (sub : GSpec) (its : List V) (k : V)
+    (h : eventFree (.dict id kid key sub) its = true) : eventFree sub (bucketOf (buckets key its) k) = true := by
+  rcases bucketOf_mem_or_nil (buckets key its) k with h0 | ⟨b', hb', h0⟩
+  · rw [h0]; rfl
+  · rw [← h0]; exact eventFree_buckets id kid key sub its h b' hb'
+
+theorem eventFree_dict_keys (id kid : Nat) (key : Fn) (sub : GSpec) :
+    ∀ its, eventFree (.dict id kid key sub) its = true → ∀ x ∈ its, isStop (key.val x) = false := by
+  intro its
+  induction its using snoc_induction with
+  | h0 => intro _ x hx; simp at hx
+  | hs its y ih =>
+    intro h x hx
+    obtain ⟨h1, h2⟩ := eventFree_init h
+    simp only [stopsAt, Bool.or_eq_false_iff] at h2
+    rcases List.mem_append.mp hx with hm | hm
+    · exact ih h1 x hm
+    · simp at hm; subst hm; exact h2.1
+
+theorem eventFree_limit (oid n : Nat) (sub : GSpec) :
+    ∀ its, eventFree (.limit oid n sub) its = true → its.length ≤ n ∧ eventFree sub its = true := by
+  intro its
+  induction its using snoc_induction with
+  | h0 => intro _; exact ⟨Nat.zero_le _, rfl⟩
+  | hs its x ih =>
+    intro h
+    obtain ⟨h1, h2⟩ := eventFree_init h
+    simp only [stopsAt, Bool.or_eq_false_iff, decide_eq_false_iff_not, Nat.not_le] at h2
+    refine ⟨by simp; omega, ?_⟩
+    rw [eventFree_snoc, (ih h1).2, h2.2]; rfl
+
+theorem eventFree_leaf_fn (f : Fn) : ∀ its, eventFree (.fn f) its = true → ∀ x ∈ its, isStop (f.val x) = false := by
+  intro its
+  induction its using snoc_induction with
+  | h0 => intro _ x hx; simp at hx
+  | hs its y ih =>
+    intro h x hx
+    obtain ⟨h1, h2⟩ := eventFree_init h
+    rcases List.mem_append.mp hx with hm | hm
+    · exact ih h1 x hm
+    · simp at hm; subst hm; simpa [stopsAt] using h2
+
+theorem eventFree_leaf_list (id : Nat) (f : Fn) :
+    ∀ its, eventFree (.list id f) its = true → ∀ x ∈ its, isStop (f.val x) = false := by
+  intro its
+  induction its using snoc_induction with
+  | h0 => intro _ x hx; simp at hx
+  | hs its y ih =>
+    intro h x hx
+    obtain ⟨h1, h2⟩ := eventFree_init h
+    rcases List.mem_append.mp hx with hm | hm
+    · exact ih h1 x hm
+    · simp at hm; subst hm; simpa [stopsAt] using h2
+
+/-! ### the cut -/
+
+theorem cutFrom_prefix (s : GSpec) : ∀ (xs done : List V), ∃ r, cutFrom s done xs = done ++ r ∧ ∀ i ∈ r, i ∈ xs := by
+  intro xs
+  induction xs with
+  | nil => intro done; exact ⟨[], by simp [cutFrom], by simp⟩
+  | cons x xs ih =>
+    intro done
+    simp only [cutFrom]
+    split
+    · exact ⟨[], by simp, by simp⟩
+    · obtain ⟨r, hr, hm⟩ := ih (done ++ [x])
+      refine ⟨x :: r, by rw [hr]; simp, ?_⟩
+      intro i hi
+      rcases List.mem_cons.mp hi with rfl | hi
+      · exact List.mem_cons_self
+      · exact List.mem_cons_of_mem _ (hm i hi)
+
+theorem cutEvent_subset (s : GSpec) (its : List V) : ∀ i ∈ cutEvent s its, i ∈ its := by
+  obtain ⟨r, hr, hm⟩ := cutFrom_prefix s its []
+  intro i hi
+  rw [cutEvent, hr] at hi
+  exact hm i (by simpa using hi)
+
+theorem cutFrom_eventFree (s : GSpec) : ∀ (xs done : List V), eventFree s done = true →
+    eventFree s (cutFrom s done xs) = true := by
+  intro xs
+  induction xs with
+  | nil => intro done h; simpa [cutFrom] using h
+  | cons x xs ih =>
+    intro done h
+    simp only [cutFrom]
+    by_cases hs : stopsAt s done x = true
+    · simpa [hs] using h
+    · have hs' : stopsAt s done x = false := by simpa using hs
+      simp only [hs', Bool.false_eq_true, if_false]
+      exact ih _ (by rw [eventFree_snoc, h, hs']; rfl)
+
+theorem cutEvent_eventFree (s : GSpec) (its : List V) : eventFree s (cutEvent s its) = true :=
+  cutFrom_eventFree s its [] rfl
+
+theorem cutFrom_of_eventFree (s : GSpec) : ∀ (xs done : List V), eventFreeFrom s done xs = true →
+    cutFrom s done xs = done ++ xs := by
+  intro xs
+  induction xs with
+  | nil => intro done _; simp [cutFrom]
+  | cons x xs ih =>
+    intro done h
+    simp only [eventFreeFrom, Bool.and_eq_true, Bool.not_eq_true'] at h
+    simp only [cutFrom, h.1, Bool.false_eq_true, if_false, ih _ h.2, List.append_assoc, List.singleton_append]
+
+/-- no STOP event: nothing is cut -/
+theorem cutEvent_of_eventFree {s : GSpec} {its : List V} (h : eventFree s its = true) : cutEvent s its = its := by
+  simpa [cutEvent] using cutFrom_of_eventFree s its [] h
+
+/-! ### the reference on runs without STOP event -/
+
+/-- without STOP event the reference of a dict level is the plain bucket map -/
+theorem valOfC_dict (c : Bool) (id kid : Nat) (key : Fn) (sub : GSpec) (its : List V)
+    (h : eventFree (.dict id kid key sub) its = true) :
+    valOfC c (.dict id kid key sub) its = .dict ((buckets key its).map (fun b => (b.1, valOfC c sub b.2))) := by
+  have hcut : cutStop key its = its := cutStop_all (eventFree_dict_keys id kid key sub its h)
   have hinv := buckets_inv key (Q := fun _ => True) its (fun _ _ _ => trivial)
   have hfil : (buckets key its).filter (bucketHasVal sub) = buckets key its := by
     rw [List.filter_eq_self]
     intro bk hbk
-    obtain ⟨_, hne, hmem⟩ := hinv bk hbk
+    obtain ⟨_, hne, _⟩ := hinv bk hbk
+    have hef := eventFree_buckets id kid key sub its h bk hbk
     unfold bucketHasVal
     cases hb2 : bk.2 with
     | nil => exact absurd hb2 hne
     | cons y ys =>
-      exact hasVal_of_stopFree sub true hsf.2 (hmem y (by simp [hb2]))
-  simp only [valOf, bucketize, hcut]
+      rw [hb2] at hef
+      have : eventFree sub ([] ++ [y] ++ ys) = true := by simpa using hef
+      simp only [eventFree, eventFreeFrom, List.nil_append, Bool.and_eq_true, Bool.not_eq_true'] at hef
+      simp [hasVal, hef.1]
+  simp only [valOfC, bucketize, hcut]
   rw [show List.foldl (bucketStep key) [] its = buckets key its from rfl, hfil]
+
+theorem valOfC_limit (c : Bool) (oid n : Nat) (sub : GSpec) (its : List V) (hne : its ≠ []) (hlen : its.length ≤ n) :
+    valOfC c (.limit oid n sub) its = valOfC c sub its := by
+  have hn : (n == 0) = false := by
+    cases its with
+    | nil => exact absurd rfl hne
+    | cons y ys => simp at hlen ⊢; omega
+  simp [valOfC, hn, List.take_of_length_le hlen]
 
 /-! ### results are never the sentinels -/
 
-theorem refAgg_not_sentinel (a : Agg) (ha : a ≠ .first) (y : V) (ys : List V) (hok : aggOk a (y :: ys) = true) :
+theorem not_sentinel_of_all {its : List V} (h : its.all (fun x => !(isStop x) && !(isSkip x)) = true) {x : V}
+    (hx : x ∈ its) : isStop x = false ∧ isSkip x = false := by
+  rw [List.all_eq_true] at h
+  have := h x hx
+  simpa using this
+
+theorem refAgg_not_sentinel (a : Agg) (y : V) (ys : List V) (hok : aggOk a (y :: ys) = true) :
     isStop (refAgg a (y :: ys)) = false ∧ isSkip (refAgg a (y :: ys)) = false := by
   cases a with
-  | first => exact absurd rfl ha
+  | first => simpa [refAgg] using not_sentinel_of_all hok (x := y) List.mem_cons_self
+  | clsLast =>
+    have hl : (y :: ys).getLast? = some ((y :: ys).getLast (by simp)) := List.getLast?_eq_some_getLast (by simp)
+    have hm : (y :: ys).getLast (by simp) ∈ y :: ys := List.getLast_mem _
+    have := not_sentinel_of_all hok hm
+    simp only [refAgg, hl, Option.getD_some]
+    exact this
+  | unbound => simp [aggOk] at hok
   | max =>
     have hm := pyMax_mem y ys
     simp only [aggOk, Bool.or_eq_true, List.all_eq_true] at hok
@@ -541,6 +830,8 @@ theorem refAgg_not_sentinel (a : Agg) (ha : a ≠ .first) (y : V) (ys : List V) 
   | avg => simp [refAgg, avgDiv, isStop, isSkip]
   | sum f => simp [refAgg, isStop, isSkip]
   | count => simp [refAgg, isStop, isSkip]
+  | clsCount => simp [refAgg, isStop, isSkip]
+  | sample size tbl => simp [refAgg, isStop, isSkip]
   | flatten f => simp [refAgg, isStop, isSkip]
   | merge f => simp [refAgg, isStop, isSkip]
 
@@ -552,102 +843,139 @@ theorem getLast?_ne_nil {its : List V} (h : its ≠ []) : ∃ x, its.getLast? = 
   | none => simp [List.getLast?_eq_none_iff] at hl; exact absurd hl h
   | some x => exact ⟨x, rfl, List.mem_of_getLast? hl⟩
 
+/-- the hypotheses of a nested Group's own run (over the elements of the item) -/
+theorem Hyp.inner {b : Bool} {g : GSpec} {its : List V} (h : Hyp b (.nested g) its) {x : V} (hx : x ∈ its) :
+    isSeqV x = true ∧ Hyp false g ((iterOf x).getD []) := by
+  have hwf := h.wf
+  have hsa := h.sa
+  have hns := h.ns
+  simp only [wfRun, List.all_eq_true, Bool.and_eq_true] at hwf
+  simp only [slotApart, List.all_eq_true] at hsa
+  simp only [noSkipBelow, List.all_eq_true, Bool.and_eq_true] at hns
+  exact ⟨(hwf x hx).1, (hwf x hx).2, hsa x hx, hns.2 x hx⟩
+
+/-- a spec that cannot yield SKIP (no bare function at the end of a Limit / nested chain) does not -/
+theorem noSkip_of_not_canSkip : ∀ (s : GSpec) (its : List V), canSkip s = false → its ≠ [] → Hyp false s its →
+    eventFree s its = true → isSkip (valOfC true s its) = false
+  | .agg oid a, its, _, hne, h, _ => by
+    cases its with
+    | nil => exact absurd rfl hne
+    | cons y ys => exact (refAgg_not_sentinel a y ys h.wf).2
+  | .fn f, _, hc, _, _, _ => by simp [canSkip] at hc
+  | .list _ f, _, _, _, _, _ => by simp [valOfC, isSkip]
+  | .dict id kid key sub, its, _, _, _, hef => by rw [valOfC_dict true id kid key sub its hef]; simp [isSkip]
+  | .limit oid n sub, its, hc, hne, h, hef => by
+    obtain ⟨hlen, hsub⟩ := eventFree_limit oid n sub its hef
+    rw [valOfC_limit true oid n sub its hne hlen]
+    exact noSkip_of_not_canSkip sub its (by simpa [canSkip] using hc) hne h.sub_limit hsub
+  | .nested g, its, hc, hne, h, _ => by
+    obtain ⟨x, hx, hxm⟩ := getLast?_ne_nil hne
+    have hin := (h.inner hxm).2
+    simp only [valOfC, hx, if_true, emptyOr]
+    by_cases hemp : (cutEvent g ((iterOf x).getD [])).isEmpty = true
+    · simp only [hemp, if_true]; exact (emptyOf_not_sentinel g).2
+    · simp only [hemp, Bool.false_eq_true, if_false]
+      exact noSkip_of_not_canSkip g _ (by simpa [canSkip] using hc) (by simpa using hemp)
+        (hin.subset (cutEvent_subset g _)) (cutEvent_eventFree g _)
+
 /-- below a key level (`b = true`) a result is neither STOP nor SKIP; at the top it is not STOP -/
 theorem valOf_not_sentinel : ∀ (s : GSpec) (b : Bool) (its : List V), its ≠ [] → Hyp b s its →
-    isStop (valOf s its) = false ∧ (b = true → isSkip (valOf s its) = false)
-  | .agg oid a, b, its, hne, h => by
-    have hsf := h.sf
-    have ha : a ≠ .first := by intro ha; subst ha; simp [stopFree] at hsf
+    eventFree s its = true →
+    isStop (valOfC true s its) = false ∧ (b = true → isSkip (valOfC true s its) = false)
+  | .agg oid a, b, its, hne, h, _ => by
     cases its with
     | nil => exact absurd rfl hne
     | cons y ys =>
-      have := refAgg_not_sentinel a ha y ys h.wf
+      have := refAgg_not_sentinel a y ys h.wf
       exact ⟨this.1, fun _ => this.2⟩
-  | .fn f, b, its, hne, h => by
-    have hsf := h.sf
-    simp only [stopFree, List.all_eq_true, Bool.and_eq_true, Bool.not_eq_true', Bool.and_eq_false_imp] at hsf
-    have hcut : cutStop f its = its := cutStop_all (fun x hx => (hsf x hx).1)
+  | .fn f, b, its, hne, h, hef => by
+    have hst := eventFree_leaf_fn f its hef
+    have hcut : cutStop f its = its := cutStop_all hst
     obtain ⟨x, hx, hxm⟩ := getLast?_ne_nil hne
-    simp only [valOf, hcut, hx]
-    refine ⟨(hsf x hxm).1, ?_⟩
+    simp only [valOfC, hcut, hx]
+    refine ⟨hst x hxm, ?_⟩
     intro hb
-    have := (hsf x hxm).2
-    simpa [hb] using this
-  | .list _ f, b, its, _, _ => by simp [valOf, isStop, isSkip]
-  | .limit .., b, its, _, h => by have := h.sf; simp [stopFree] at this
-  | .dict id kid key sub, b, its, _, h => by rw [valOf_dict id kid key sub b its h]; simp [isStop, isSkip]
-  | .nested g, b, its, hne, h => by
+    have hns := h.ns
+    simp only [noSkipBelow, hb, Bool.not_true, Bool.false_or, List.all_eq_true, Bool.not_eq_true'] at hns
+    exact hns x hxm
+  | .list _ f, b, its, _, _, _ => by simp [valOfC, isStop, isSkip]
+  | .limit oid n sub, b, its, hne, h, hef => by
+    obtain ⟨hlen, hsub⟩ := eventFree_limit oid n sub its hef
+    rw [valOfC_limit true oid n sub its hne hlen]
+    exact valOf_not_sentinel sub b its hne h.sub_limit hsub
+  | .dict id kid key sub, b, its, _, _, hef => by
+    rw [valOfC_dict true id kid key sub its hef]; simp [isStop, isSkip]
+  | .nested g, b, its, hne, h, _ => by
     obtain ⟨x, hx, hxm⟩ := getLast?_ne_nil hne
-    have hwf := h.wf
-    have hsf := h.sf
-    have hka := h.ka
-    simp only [wfRun, List.all_eq_true, Bool.and_eq_true] at hwf
-    simp only [stopFree, List.all_eq_true, Bool.and_eq_true] at hsf
-    simp only [keysApart, List.all_eq_true] at hka
-    have hin : Hyp false g ((iterOf x).getD []) := ⟨(hwf x hxm).2, hsf.2 x hxm, hka x hxm⟩
-    simp only [valOf, hx, emptyOr]
-    by_cases hemp : ((iterOf x).getD []).isEmpty = true
+    have hin := (h.inner hxm).2
+    have hin' := hin.subset (cutEvent_subset g ((iterOf x).getD []))
+    have hef' := cutEvent_eventFree g ((iterOf x).getD [])
+    simp only [valOfC, hx, if_true, emptyOr]
+    by_cases hemp : (cutEvent g ((iterOf x).getD [])).isEmpty = true
     · simp only [hemp, if_true]
       exact ⟨(emptyOf_not_sentinel g).1, fun _ => (emptyOf_not_sentinel g).2⟩
-    · have hne' : (iterOf x).getD [] ≠ [] := by simpa using hemp
+    · have hne' : cutEvent g ((iterOf x).getD []) ≠ [] := by simpa using hemp
       simp only [hemp, Bool.false_eq_true, if_false]
-      have ih := valOf_not_sentinel g false _ hne' hin
-      refine ⟨ih.1, ?_⟩
+      refine ⟨(valOf_not_sentinel g false _ hne' hin' hef').1, ?_⟩
       intro hb
-      subst hb
-      -- below a key level the nested spec is a dict / list / aggregator: never SKIP
-      have hg := hsf.1
-      cases g with
-      | fn f => simp at hg
-      | nested g2 => simp at hg
-      | limit oid n sub => have := hin.sf; simp [stopFree] at this
-      | list id f => simp [valOf, isSkip]
-      | dict id kid key sub => rw [valOf_dict id kid key sub false _ hin]; simp [isSkip]
-      | agg oid a =>
-        have ha : a ≠ .first := by intro ha; subst ha; have := hin.sf; simp [stopFree] at this
-        cases hl : (iterOf x).getD [] with
-        | nil => exact absurd hl hne'
-        | cons y ys =>
-          have hok : aggOk a (y :: ys) = true := by have := hin.wf; rw [hl] at this; exact this
-          exact (refAgg_not_sentinel a ha y ys hok).2
+      have hns := h.ns
+      have hie : its.isEmpty = false := by simpa using hne
+      simp only [noSkipBelow, hb, hie, Bool.false_or, Bool.true_and, Bool.and_eq_true, Bool.not_eq_true'] at hns
+      exact noSkip_of_not_canSkip g _ hns.1 hne' hin' hef'
 
 /-! ### the item loop -/
 
-/-- if every step extends the reference by one item, the loop of Group.glomit computes the
-    reference of all items -/
-theorem loop_of_step (s : GSpec)
-    (hstep : ∀ (its : List V) (x : V), Hyp false s (its ++ [x]) →
-      gstep s x (treeOf s its) = .ok (valOf s (its ++ [x]), treeOf s (its ++ [x]))) :
-    ∀ (xs done : List V), Hyp false s (done ++ xs) →
-      loopWith (gstep s) xs (valOfTop s done) (treeOf s done) = .ok (valOfTop s (done ++ xs)) := by
+/-- what one more item `x` does, on the tree the (event-free) items `its` left: the reference
+    over `its ++ [x]` and the tree of `its ++ [x]` — or, exactly when the hand-written loop
+    would be told STOP by the spec, STOP -/
+def StepOK (s : GSpec) (its : List V) (x : V) : Prop :=
+  (stopsAt s its x = false →
+    gstep s x (treeOf s its) = .ok (valOfC true s (its ++ [x]), treeOf s (its ++ [x]))) ∧
+  (stopsAt s its x = true → ∃ t, gstep s x (treeOf s its) = .ok (.stop, t))
+
+/-- `ret` of Group.glomit after the items `its` -/
+def valTopC (s : GSpec) (its : List V) : V := emptyOr s (valOfC true s) its
+
+theorem valTopC_snoc (s : GSpec) (its : List V) (x : V) : valTopC s (its ++ [x]) = valOfC true s (its ++ [x]) := by
+  simp [valTopC, emptyOr]
+
+/-- if every step behaves (`StepOK`), the loop of Group.glomit computes the reference of the
+    items before the first STOP event -/
+theorem loop_exact (s : GSpec)
+    (hstep : ∀ (its : List V) (x : V), Hyp false s (its ++ [x]) → eventFree s its = true → StepOK s its x) :
+    ∀ (xs done : List V), Hyp false s (done ++ xs) → eventFree s done = true →
+      loopWith (gstep s) xs (valTopC s done) (treeOf s done) = .ok (valTopC s (cutFrom s done xs)) := by
   intro xs
   induction xs with
-  | nil => intro done _; simp [loopWith]
+  | nil => intro done _ _; simp [loopWith, cutFrom]
   | cons x xs ih =>
-    intro done h
+    intro done h hef
     have hx : Hyp false s (done ++ [x]) := h.subset (fun i hi => by
       rcases List.mem_append.mp hi with h1 | h1
       · exact List.mem_append_left _ h1
       · exact List.mem_append_right _ (by simp at h1; simp [h1]))
-    have hns := (valOf_not_sentinel s false (done ++ [x]) (by simp) hx).1
-    simp only [loopWith, hstep done x hx, hns, Bool.false_eq_true, if_false]
-    have : valOf s (done ++ [x]) = valOfTop s (done ++ [x]) := by simp [valOfTop, emptyOr]
-    rw [this]
-    have := ih (done ++ [x]) (by simpa using h)
-    simpa using this
+    obtain ⟨h1, h2⟩ := hstep done x hx hef
+    by_cases hs : stopsAt s done x = true
+    · obtain ⟨t, ht⟩ := h2 hs
+      simp [loopWith, ht, isStop, cutFrom, hs]
+    · have hs' : stopsAt s done x = false := by simpa using hs
+      have hef' : eventFree s (done ++ [x]) = true := by rw [eventFree_snoc, hef, hs']; rfl
+      have hns := (valOf_not_sentinel s false (done ++ [x]) (by simp) hx hef').1
+      simp only [loopWith, h1 hs', hns, Bool.false_eq_true, if_false, cutFrom, hs']
+      rw [← valTopC_snoc]
+      exact ih (done ++ [x]) (by simpa using h) hef'
 
 theorem groupEval_of_step (s : GSpec)
-    (hstep : ∀ (its : List V) (x : V), Hyp false s (its ++ [x]) →
-      gstep s x (treeOf s its) = .ok (valOf s (its ++ [x]), treeOf s (its ++ [x])))
-    (items : List V) (h : Hyp false s items) : groupEval s items = .ok (valOfTop s items) := by
-  have := loop_of_step s hstep items [] (by simpa using h)
-  simpa [groupEval, groupLoop, valOfTop, emptyOr, treeOf_nil] using this
+    (hstep : ∀ (its : List V) (x : V), Hyp false s (its ++ [x]) → eventFree s its = true → StepOK s its x)
+    (items : List V) (h : Hyp false s items) : groupEval s items = .ok (implTop s items) := by
+  have := loop_exact s hstep items [] (by simpa using h) rfl
+  simpa [groupEval, groupLoop, valTopC, emptyOr, treeOf_nil, implTop, cutEvent] using this
 
 /-! ### one step of a key level -/
 
 /-- the tree a key level holds, given its buckets -/
 def levelTree (id : Nat) (sub : GSpec) (bs : List (V × List V)) : List (V × V) :=
-  (idKey id, .dict (bs.map (fun b => (b.1, valOf sub b.2)))) :: bs.map (fun b => (b.1, V.dict (treeOf sub b.2)))
+  (idKey id, .dict (bs.map (fun b => (b.1, valOfC true sub b.2)))) :: bs.map (fun b => (b.1, V.dict (treeOf sub b.2)))
 
 theorem treeOf_dict (id kid : Nat) (key : Fn) (sub : GSpec) (its : List V) :
     treeOf (.dict id kid key sub) its = if its.isEmpty then [] else levelTree id sub (buckets key its) := rfl
@@ -658,31 +986,30 @@ theorem dget_cons_ne {k' k v : V} {es : List (V × V)} (h : keyEq k' k = false) 
 theorem dset_cons_ne {k' k v w : V} {es : List (V × V)} (h : keyEq k' k = false) :
     dset ((k', v) :: es) k w = (k', v) :: dset es k w := by simp [dset, h]
 
-theorem dict_step (id kid : Nat) (key : Fn) (sub : GSpec) (b : Bool) (its : List V) (x : V)
-    (h : Hyp b (.dict id kid key sub) (its ++ [x]))
-    (hsub : ∀ its', (∀ i ∈ its', i ∈ its) →
-      gstep sub x (treeOf sub its') = .ok (valOf sub (its' ++ [x]), treeOf sub (its' ++ [x]))) :
-    gstep (.dict id kid key sub) x (treeOf (.dict id kid key sub) its) =
-      .ok (valOf (.dict id kid key sub) (its ++ [x]), treeOf (.dict id kid key sub) (its ++ [x])) := by
+/-- a slot that holds a bucket's sub-tree (or nothing) is not a STOP mark -/
+theorem isMarked_levelTree (id kid : Nat) (sub : GSpec) (bs : List (V × List V)) :
+    isMarked (levelTree id sub bs) (.obj kid) = false := by
+  unfold isMarked
+  rw [levelTree, dget_cons_ne (keyEq_id_obj id kid), dget_map (fun its => V.dict (treeOf sub its))]
+  cases bhas bs (.obj kid) <;> rfl
+
+theorem dict_both (id kid : Nat) (key : Fn) (sub : GSpec) (b : Bool) (its : List V) (x : V)
+    (h : Hyp b (.dict id kid key sub) (its ++ [x])) (hef : eventFree (.dict id kid key sub) its = true)
+    (hsub : ∀ its', Hyp true sub (its' ++ [x]) → eventFree sub its' = true → StepOK sub its' x) :
+    StepOK (.dict id kid key sub) its x := by
   -- unpack the hypotheses
   have hwf := h.wf
-  have hsf := h.sf
-  have hka := h.ka
+  have hsa := h.sa
   simp only [wfRun, Bool.and_eq_true, List.all_eq_true] at hwf
-  simp only [stopFree, Bool.and_eq_true, List.all_eq_true, Bool.not_eq_true'] at hsf
-  simp only [keysApart, Bool.and_eq_true, List.all_eq_true, Bool.not_eq_true'] at hka
+  simp only [slotApart, Bool.and_eq_true, List.all_eq_true, Bool.not_eq_true'] at hsa
   have hxm : x ∈ its ++ [x] := by simp
-  have hsubH : Hyp true sub (its ++ [x]) := ⟨hwf.2, hsf.2, hka.2⟩
+  have hsubH : Hyp true sub (its ++ [x]) := h.sub_dict
   have hkap := apply_of_ok (hwf.1 x hxm).1
   have hhash := (hwf.1 x hxm).2
-  have hnstop : isStop (key.val x) = false := hsf.1 x hxm
-  have hslotx : keyEq (idKey id) (key.val x) = false := (hka.1 x hxm).1
-  have hobjx : keyEq (.obj kid) (key.val x) = false := (hka.1 x hxm).2
+  have hslotx : keyEq (idKey id) (key.val x) = false := hsa.1 x hxm
   -- the buckets so far
-  have hinv := buckets_inv key (Q := fun k => keyEq k (idKey id) = false ∧ keyEq k (.obj kid) = false) its
-    (fun y hy _ => by
-      have := hka.1 y (List.mem_append_left _ hy)
-      exact ⟨by rw [keyEq_symm]; exact this.1, by rw [keyEq_symm]; exact this.2⟩)
+  have hinv := buckets_inv key (Q := fun k => keyEq k (idKey id) = false) its
+    (fun y hy _ => by rw [keyEq_symm]; exact hsa.1 y (List.mem_append_left _ hy))
   -- the tree after `acc = tree[id(spec)]` was ensured
   have htree1 : (if dhas (treeOf (.dict id kid key sub) its) (idKey id) then treeOf (.dict id kid key sub) its
       else dset (treeOf (.dict id kid key sub) its) (idKey id) (.dict [])) = levelTree id sub (buckets key its) := by
@@ -691,306 +1018,247 @@ theorem dict_step (id kid : Nat) (key : Fn) (sub : GSpec) (b : Bool) (its : List
     | nil => simp [dhas, dget, dset, levelTree, buckets]
     | cons y ys => simp [dhas, dget, levelTree, keyEq_idKey]
   have hacc : subTree (levelTree id sub (buckets key its)) (idKey id) =
-      .ok ((buckets key its).map (fun b => (b.1, valOf sub b.2))) := by
+      .ok ((buckets key its).map (fun b => (b.1, valOfC true sub b.2))) := by
     simp [subTree, levelTree, dget, keyEq_idKey]
-  have hmark : dget (levelTree id sub (buckets key its)) (.obj kid) = none := by
-    rw [levelTree, dget_cons_ne (keyEq_id_obj id kid), dget_map (fun its => V.dict (treeOf sub its)),
-      bhas_false (fun b hb => (hinv b hb).1.2)]
-    rfl
-  -- the right-hand side
-  have hrhsV := valOf_dict id kid key sub b (its ++ [x]) h
-  have hrhsT : treeOf (.dict id kid key sub) (its ++ [x]) = levelTree id sub (buckets key (its ++ [x])) := by
-    rw [treeOf_dict]; simp
-  rw [hrhsV, hrhsT, buckets_snoc, bucketStep_eq]
-  -- run the code
-  simp only [gstep, htree1, hacc, hmark, hkap]
+  have hmark := isMarked_levelTree id kid sub (buckets key its)
+  -- the bucket of `x`
+  have hbm : ∀ i ∈ bucketOf (buckets key its) (key.val x), i ∈ its :=
+    bucketOf_mem (P := fun i => i ∈ its) _ _ (fun b hb => ⟨(hinv b hb).2.1, (hinv b hb).2.2⟩)
+  have hHb : Hyp true sub (bucketOf (buckets key its) (key.val x) ++ [x]) := hsubH.subset (snoc_subset hbm)
+  have hefb : eventFree sub (bucketOf (buckets key its) (key.val x)) = true :=
+    eventFree_bucketOf id kid key sub its (key.val x) hef
+  obtain ⟨hrec1, hrec2⟩ := hsub _ hHb hefb
+  have hst : stopsAt (.dict id kid key sub) its x = (isStop (key.val x) ||
+      (!(isSkip (key.val x)) && stopsAt sub (bucketOf (buckets key its) (key.val x)) x)) := rfl
   by_cases hskip : isSkip (key.val x) = true
-  · simp [hskip, levelTree]
+  · -- the key function says SKIP: nothing happens
+    have hnstop : isStop (key.val x) = false := by
+      cases hk : key.val x <;> simp [hk, isSkip, isStop] at hskip ⊢
+    refine ⟨?_, ?_⟩
+    · intro hs
+      have hef' : eventFree (.dict id kid key sub) (its ++ [x]) = true := by rw [eventFree_snoc, hef, hs]; rfl
+      rw [valOfC_dict true id kid key sub (its ++ [x]) hef', treeOf_dict id kid key sub (its ++ [x])]
+      rw [buckets_snoc, bucketStep_eq]
+      simp only [gstep, htree1, hacc, hmark, hkap]
+      simp [hskip, levelTree]
+    · intro hs; rw [hst] at hs; simp [hskip, hnstop] at hs
   · have hskip' : isSkip (key.val x) = false := by simpa using hskip
-    have hkk : keyEq (key.val x) (key.val x) = true := keyEq_refl hhash
-    simp only [hskip', hnstop, hhash, Bool.false_eq_true, if_false, Bool.not_true, hslotx, Bool.false_and]
-    -- `key not in acc`
-    have hfresh : dhas ((buckets key its).map (fun b => (b.1, valOf sub b.2))) (key.val x) =
-        bhas (buckets key its) (key.val x) := by
-      rw [dhas_eq, dget_map]; cases bhas (buckets key its) (key.val x) <;> rfl
-    rw [hfresh]
-    -- `tree[key]` after `if key not in acc: tree[key] = {}`
-    have hst : subTree (if (!bhas (buckets key its) (key.val x)) = true
-          then dset (levelTree id sub (buckets key its)) (key.val x) (.dict [])
-          else levelTree id sub (buckets key its)) (key.val x) =
-        .ok (treeOf sub (bucketOf (buckets key its) (key.val x))) := by
-      cases hb : bhas (buckets key its) (key.val x) with
-      | false =>
-        simp only [Bool.not_false, if_true, levelTree, dset_cons_ne hslotx, subTree, dget_cons_ne hslotx,
-          dget_dset_self _ hkk, bucketOf_of_not_bhas hb, treeOf_nil]
-      | true =>
-        simp only [Bool.not_true, Bool.false_eq_true, if_false, levelTree, subTree, dget_cons_ne hslotx,
-          dget_map (fun its => V.dict (treeOf sub its)), hb, if_true]
-    rw [hst]
-    have hbm : ∀ i ∈ bucketOf (buckets key its) (key.val x), i ∈ its :=
-      bucketOf_mem (P := fun i => i ∈ its) _ _ (fun b hb => ⟨(hinv b hb).2.1, (hinv b hb).2.2⟩)
-    have hrec := hsub _ hbm
-    have hHb : Hyp true sub (bucketOf (buckets key its) (key.val x) ++ [x]) :=
-      hsubH.subset (fun i hi => by
-        rcases List.mem_append.mp hi with h1 | h1
-        · exact List.mem_append_left _ (hbm i h1)
-        · exact List.mem_append_right _ h1)
-    have hns := valOf_not_sentinel sub true _ (by simp) hHb
-    simp only [hrec, hns.1, hns.2 rfl, Bool.false_eq_true, if_false]
-    -- the two stores: the sub-tree back into its slot, the result into `acc`
-    have htail : dset (if (!bhas (buckets key its) (key.val x)) = true
-          then dset (levelTree id sub (buckets key its)) (key.val x) (.dict [])
-          else levelTree id sub (buckets key its)) (key.val x)
-          (.dict (treeOf sub (bucketOf (buckets key its) (key.val x) ++ [x]))) =
-        (idKey id, .dict ((buckets key its).map (fun b => (b.1, valOf sub b.2)))) ::
-          (addTo (buckets key its) (key.val x) x).map (fun b => (b.1, V.dict (treeOf sub b.2))) := by
-      have hm := dset_map (fun its => V.dict (treeOf sub its)) (buckets key its) (key.val x) x
-      cases hb : bhas (buckets key its) (key.val x) with
-      | false =>
-        simp only [Bool.not_false, if_true, levelTree, dset_cons_ne hslotx, dset_dset _ hkk, hm]
-      | true =>
-        simp only [Bool.not_true, Bool.false_eq_true, if_false, levelTree, dset_cons_ne hslotx, hm]
-    rw [htail]
-    have hacc' := dset_map (valOf sub) (buckets key its) (key.val x) x
-    simp only [hacc', dset, keyEq_idKey, if_true, levelTree]
+    by_cases hstop : isStop (key.val x) = true
+    · -- the key function says STOP
+      refine ⟨fun hs => by rw [hst] at hs; simp [hstop] at hs, fun _ => ?_⟩
+      simp only [gstep, htree1, hacc, hmark, hkap]
+      simp [hskip', hstop]
+    · have hnstop : isStop (key.val x) = false := by simpa using hstop
+      have hkk : keyEq (key.val x) (key.val x) = true := keyEq_refl hhash
+      -- `key not in acc`
+      have hfresh : dhas ((buckets key its).map (fun b => (b.1, valOfC true sub b.2))) (key.val x) =
+          bhas (buckets key its) (key.val x) := by
+        rw [dhas_eq, dget_map]; cases bhas (buckets key its) (key.val x) <;> rfl
+      -- `tree[key]` after `if key not in acc: tree[key] = {}`
+      have hsubtree : subTree (if (!bhas (buckets key its) (key.val x)) = true
+            then dset (levelTree id sub (buckets key its)) (key.val x) (.dict [])
+            else levelTree id sub (buckets key its)) (key.val x) =
+          .ok (treeOf sub (bucketOf (buckets key its) (key.val x))) := by
+        cases hb : bhas (buckets key its) (key.val x) with
+        | false =>
+          simp only [Bool.not_false, if_true, levelTree, dset_cons_ne hslotx, subTree, dget_cons_ne hslotx,
+            dget_dset_self _ hkk, bucketOf_of_not_bhas hb, treeOf_nil]
+        | true =>
+          simp only [Bool.not_true, Bool.false_eq_true, if_false, levelTree, subTree, dget_cons_ne hslotx,
+            dget_map (fun its => V.dict (treeOf sub its)), hb, if_true]
+      refine ⟨?_, ?_⟩
+      · intro hs
+        have hsb : stopsAt sub (bucketOf (buckets key its) (key.val x)) x = false := by
+          rw [hst] at hs; simpa [hnstop, hskip'] using hs
+        have hef' : eventFree (.dict id kid key sub) (its ++ [x]) = true := by rw [eventFree_snoc, hef, hs]; rfl
+        have hefb' : eventFree sub (bucketOf (buckets key its) (key.val x) ++ [x]) = true := by
+          rw [eventFree_snoc, hefb, hsb]; rfl
+        rw [valOfC_dict true id kid key sub (its ++ [x]) hef', treeOf_dict id kid key sub (its ++ [x])]
+        rw [buckets_snoc, bucketStep_eq]
+        simp only [gstep, htree1, hacc, hmark, hkap]
+        simp only [hskip', hnstop, hhash, Bool.false_eq_true, if_false, Bool.not_true, hslotx, Bool.false_and]
+        rw [hfresh, hsubtree]
+        have hns := valOf_not_sentinel sub true _ (by simp) hHb hefb'
+        simp only [hrec1 hsb, hns.1, hns.2 rfl, Bool.false_eq_true, if_false]
+        -- the two stores: the sub-tree back into its slot, the result into `acc`
+        have htail : dset (if (!bhas (buckets key its) (key.val x)) = true
+              then dset (levelTree id sub (buckets key its)) (key.val x) (.dict [])
+              else levelTree id sub (buckets key its)) (key.val x)
+              (.dict (treeOf sub (bucketOf (buckets key its) (key.val x) ++ [x]))) =
+            (idKey id, .dict ((buckets key its).map (fun b => (b.1, valOfC true sub b.2)))) ::
+              (addTo (buckets key its) (key.val x) x).map (fun b => (b.1, V.dict (treeOf sub b.2))) := by
+          have hm := dset_map (fun its => V.dict (treeOf sub its)) (buckets key its) (key.val x) x
+          cases hb : bhas (buckets key its) (key.val x) with
+          | false =>
+            simp only [Bool.not_false, if_true, levelTree, dset_cons_ne hslotx, dset_dset _ hkk, hm]
+          | true =>
+            simp only [Bool.not_true, Bool.false_eq_true, if_false, levelTree, dset_cons_ne hslotx, hm]
+        rw [htail]
+        have hacc' := dset_map (valOfC true sub) (buckets key its) (key.val x) x
+        have hne : (its ++ [x]).isEmpty = false := by simp
+        simp only [hacc', dset, keyEq_idKey, if_true, levelTree, hne, Bool.false_eq_true, if_false]
+      · intro hs
+        have hsb : stopsAt sub (bucketOf (buckets key its) (key.val x)) x = true := by
+          rw [hst] at hs; simpa [hnstop, hskip'] using hs
+        obtain ⟨t, ht⟩ := hrec2 hsb
+        simp only [gstep, htree1, hacc, hmark, hkap]
+        simp only [hskip', hnstop, hhash, Bool.false_eq_true, if_false, Bool.not_true, hslotx, Bool.false_and]
+        rw [hfresh, hsubtree]
+        simp [ht, isStop]
 
 /-! ### the step lemma for every spec -/
 
-theorem snoc_subset {its' its : List V} {x : V} (h : ∀ i ∈ its', i ∈ its) : ∀ i ∈ its' ++ [x], i ∈ its ++ [x] := by
-  intro i hi
-  rcases List.mem_append.mp hi with h1 | h1
-  · exact List.mem_append_left _ (h i h1)
-  · exact List.mem_append_right _ h1
+theorem limit_unpack (oid n : Nat) (sub : GSpec) (its : List V) :
+    limitState (treeOf (.limit oid n sub) its) (.obj oid) = ((its.length : Int), treeOf sub its) := by
+  cases its with
+  | nil => simp [limitState, treeOf, dget, treeOf_nil]
+  | cons y ys => simp [limitState, treeOf, dget, keyEq_obj]
 
-/-- **one item more**: evaluating the spec on item `x` with the tree the items `its` left
-    returns the reference over `its ++ [x]` and leaves the tree of `its ++ [x]` -/
-theorem gstep_spec : ∀ (s : GSpec) (b : Bool) (its : List V) (x : V), Hyp b s (its ++ [x]) →
-    gstep s x (treeOf s its) = .ok (valOf s (its ++ [x]), treeOf s (its ++ [x]))
-  | .agg oid a, b, its, x, h => by
-    have hsf := h.sf
-    have ha : a ≠ .first := by intro ha; subst ha; simp [stopFree] at hsf
-    exact aggStep_spec oid a ha its x h.wf
-  | .fn f, b, its, x, h => by
+theorem limit_store (oid n : Nat) (sub : GSpec) (its : List V) (x : V) :
+    dset (treeOf (.limit oid n sub) its) (.obj oid)
+        (.list [.int ((its.length : Int) + 1), .dict (treeOf sub (its ++ [x]))]) =
+      treeOf (.limit oid n sub) (its ++ [x]) := by
+  cases its with
+  | nil => simp [treeOf, dset]
+  | cons y ys => simp [treeOf, dset, keyEq_obj]
+
+theorem getLast?_snoc (its : List V) (x : V) : (its ++ [x]).getLast? = some x := by simp
+
+/-- **one item more**, for every spec: on the tree the event-free items `its` left, item `x`
+    yields the reference over `its ++ [x]` and the tree of `its ++ [x]`, or STOP exactly when
+    the hand-written loop is told STOP -/
+theorem gstep_both : ∀ (s : GSpec) (b : Bool) (its : List V) (x : V), Hyp b s (its ++ [x]) →
+    eventFree s its = true → StepOK s its x
+  | .agg oid a, b, its, x, h, _ => by
+    refine ⟨fun hs => ?_, fun hs => ?_⟩
+    · simpa only [gstep, treeOf, valOfC] using aggStep_spec oid a its x hs h.wf
+    · have ha : a = .first := by cases a <;> simp [stopsAt] at hs ⊢
+      subst ha
+      have hne : its ≠ [] := by intro h0; subst h0; simp [stopsAt] at hs
+      exact ⟨_, by simpa only [gstep, treeOf] using aggStep_first_stop oid its x hne⟩
+  | .fn f, b, its, x, h, hef => by
     have hwf := h.wf
-    have hsf := h.sf
     simp only [wfRun, List.all_eq_true] at hwf
-    simp only [stopFree, List.all_eq_true, Bool.and_eq_true, Bool.not_eq_true'] at hsf
-    have hcut : cutStop f (its ++ [x]) = its ++ [x] := cutStop_all (fun y hy => (hsf y hy).1)
-    simp [gstep, treeOf, apply_of_ok (hwf x (by simp)), valOf, hcut]
-  | .limit .., b, its, x, h => by have := h.sf; simp [stopFree] at this
-  | .list id f, b, its, x, h => by
+    have hap := apply_of_ok (hwf x (by simp))
+    refine ⟨fun hs => ?_, fun hs => ?_⟩
+    · have hs' : isStop (f.val x) = false := by simpa [stopsAt] using hs
+      have hcut : cutStop f (its ++ [x]) = its ++ [x] := cutStop_all (fun y hy => by
+        rcases List.mem_append.mp hy with hm | hm
+        · exact eventFree_leaf_fn f its hef y hm
+        · simp at hm; subst hm; exact hs')
+      simp [gstep, treeOf, hap, valOfC, hcut]
+    · have hs' : isStop (f.val x) = true := by simpa [stopsAt] using hs
+      exact ⟨[], by simp [gstep, treeOf, hap, isStop_eq hs']⟩
+  | .list id f, b, its, x, h, hef => by
     have hwf := h.wf
-    have hsf := h.sf
     simp only [wfRun, List.all_eq_true] at hwf
-    simp only [stopFree, List.all_eq_true, Bool.not_eq_true'] at hsf
-    have hcut : cutStop f (its ++ [x]) = its ++ [x] := cutStop_all hsf
-    have hns := hsf x (by simp)
-    have hval : valOf (.list id f) (its ++ [x]) = .list (valsOf f (its ++ [x])) := by
-      simp [valOf, hcut, valsOf]
-    rw [hval, valsOf_snoc]
-    cases its with
-    | nil =>
-      by_cases hs : isSkip (f.val x) = true
-      · simp [gstep, treeOf, apply_of_ok (hwf x (by simp)), hns, hs, dget, dhas, dset, valsOf, keyEq_idKey]
-      · have hs' : isSkip (f.val x) = false := by simpa using hs
-        simp [gstep, treeOf, apply_of_ok (hwf x (by simp)), hns, hs', dget, dhas, dset, valsOf, keyEq_idKey]
-    | cons y ys =>
-      by_cases hs : isSkip (f.val x) = true
-      · simp [gstep, treeOf, apply_of_ok (hwf x (by simp)), hns, hs, dget, dhas, dset, keyEq_idKey, valsOf_cons_snoc]
-      · have hs' : isSkip (f.val x) = false := by simpa using hs
-        simp [gstep, treeOf, apply_of_ok (hwf x (by simp)), hns, hs', dget, dhas, dset, keyEq_idKey, valsOf_cons_snoc]
-  | .nested g, b, its, x, h => by
-    have hwf := h.wf
-    have hsf := h.sf
-    have hka := h.ka
-    simp only [wfRun, List.all_eq_true, Bool.and_eq_true] at hwf
-    simp only [stopFree, List.all_eq_true, Bool.and_eq_true] at hsf
-    simp only [keysApart, List.all_eq_true] at hka
-    have hxm : x ∈ its ++ [x] := by simp
-    have hin : Hyp false g ((iterOf x).getD []) := ⟨(hwf x hxm).2, hsf.2 x hxm, hka x hxm⟩
-    have hev := groupEval_of_step g (fun its' x' h' => gstep_spec g false its' x' h') _ hin
-    have hseq := (hwf x hxm).1
-    have hval : valOf (.nested g) (its ++ [x]) = valOfTop g ((iterOf x).getD []) := by
-      simp [valOf, valOfTop]
-    rw [hval]
-    simp only [groupEval, groupLoop] at hev
-    cases x with
-    | list xs => simp only [gstep, iterOf, Option.getD_some, treeOf] at hev ⊢; simp [hev]
-    | tuple xs => simp only [gstep, iterOf, Option.getD_some, treeOf] at hev ⊢; simp [hev]
-    | _ => simp [isSeqV] at hseq
-  | .dict id kid key sub, b, its, x, h => by
-    have hwf := h.wf
-    have hsf := h.sf
-    have hka := h.ka
-    simp only [wfRun, Bool.and_eq_true] at hwf
-    simp only [stopFree, Bool.and_eq_true] at hsf
-    simp only [keysApart, Bool.and_eq_true] at hka
-    have hsubH : Hyp true sub (its ++ [x]) := ⟨hwf.2, hsf.2, hka.2⟩
-    exact dict_step id kid key sub b its x h
-      (fun its' hs => gstep_spec sub true its' x (hsubH.subset (snoc_subset hs)))
-
-/-- **Group = the hand-written loop** (under the hypotheses) -/
-theorem groupEval_spec (s : GSpec) (items : List V) (h : Hyp false s items) :
-    groupEval s items = .ok (valOfTop s items) :=
-  groupEval_of_step s (fun its x hx => gstep_spec s false its x hx) items h
-
-/-! ### top-level Limit and First -/
-
-def limTree (oid : Nat) (sub : GSpec) (done : List V) : List (V × V) :=
-  if done.isEmpty then [] else [(.obj oid, .list [.int done.length, .dict (treeOf sub done)])]
-
-def limRet (sub : GSpec) (done : List V) : V := if done.isEmpty then .none else valOf sub done
-
-theorem limit_unpack (oid : Nat) (sub : GSpec) (done : List V) :
-    limitState (limTree oid sub done) (.obj oid) = ((done.length : Int), treeOf sub done) := by
-  cases done with
-  | nil => simp [limitState, limTree, dget, treeOf_nil]
-  | cons y ys => simp [limitState, limTree, dget, keyEq_obj]
-
-theorem limTree_snoc (oid : Nat) (sub : GSpec) (done : List V) (x : V) :
-    dset (limTree oid sub done) (.obj oid) (.list [.int ((done.length : Int) + 1), .dict (treeOf sub (done ++ [x]))]) =
-      limTree oid sub (done ++ [x]) := by
-  cases done with
-  | nil => simp [limTree, dset]
-  | cons y ys => simp [limTree, dset, keyEq_obj]
-
-theorem limit_step_lt (oid n : Nat) (sub : GSpec) (done : List V) (x : V) (hlt : done.length < n)
-    (hx : Hyp false sub (done ++ [x])) :
-    gstep (.limit oid n sub) x (limTree oid sub done) =
-      .ok (valOf sub (done ++ [x]), limTree oid sub (done ++ [x])) := by
-  have hcnt : ¬ ((done.length : Int) + 1 > (n : Int)) := by omega
-  simp only [gstep, limit_unpack, hcnt, if_false, gstep_spec sub false done x hx, limTree_snoc]
-
-theorem limit_step_ge (oid n : Nat) (sub : GSpec) (done : List V) (x : V) (hge : n ≤ done.length) :
-    ∃ t, gstep (.limit oid n sub) x (limTree oid sub done) = .ok (.stop, t) := by
-  have hcnt : ((done.length : Int) + 1 > (n : Int)) := by omega
-  refine ⟨dset (limTree oid sub done) (.obj oid) (.list [.int ((done.length : Int) + 1), .dict (treeOf sub done)]), ?_⟩
-  simp only [gstep, limit_unpack, hcnt, if_true]
-
-theorem limit_loop (oid n : Nat) (sub : GSpec) :
-    ∀ (xs done : List V), done.length ≤ n → Hyp false sub (done ++ xs) →
-      loopWith (gstep (.limit oid n sub)) xs (limRet sub done) (limTree oid sub done) =
-        .ok (valOfTop (.limit oid n sub) (done ++ xs)) := by
-  intro xs
-  induction xs with
-  | nil =>
-    intro done hlen _
-    cases done with
-    | nil => simp [loopWith, limRet, valOfTop, emptyOr, emptyOf]
-    | cons y ys =>
-      have hn : (n == 0) = false := by simp at hlen ⊢; omega
-      simp [loopWith, limRet, valOfTop, emptyOr, valOf, hn, List.take_of_length_le hlen]
-  | cons x xs ih =>
-    intro done hlen h
-    by_cases hlt : done.length < n
-    · have hx : Hyp false sub (done ++ [x]) := h.subset (fun i hi => by
-        rcases List.mem_append.mp hi with h1 | h1
-        · exact List.mem_append_left _ h1
-        · exact List.mem_append_right _ (by simp at h1; simp [h1]))
-      have hns := (valOf_not_sentinel sub false (done ++ [x]) (by simp) hx).1
-      have hstep := limit_step_lt oid n sub done x hlt hx
-      have := ih (done ++ [x]) (by simp; omega) (by simpa using h)
-      have hl : limRet sub (done ++ [x]) = valOf sub (done ++ [x]) := by simp [limRet]
-      rw [hl] at this
-      unfold loopWith
-      rw [hstep]
-      simp only [hns, Bool.false_eq_true, if_false]
-      simpa using this
-    · have heq : done.length = n := by omega
-      obtain ⟨t, hstep⟩ := limit_step_ge oid n sub done x (by omega)
-      unfold loopWith
-      rw [hstep]
-      simp only [isStop, if_true]
-      cases done with
+    have hap := apply_of_ok (hwf x (by simp))
+    refine ⟨fun hs => ?_, fun hs => ?_⟩
+    · have hns : isStop (f.val x) = false := by simpa [stopsAt] using hs
+      have hcut : cutStop f (its ++ [x]) = its ++ [x] := cutStop_all (fun y hy => by
+        rcases List.mem_append.mp hy with hm | hm
+        · exact eventFree_leaf_list id f its hef y hm
+        · simp at hm; subst hm; exact hns)
+      have hval : valOfC true (.list id f) (its ++ [x]) = .list (valsOf f (its ++ [x])) := by
+        simp [valOfC, hcut, valsOf]
+      rw [hval, valsOf_snoc]
+      cases its with
       | nil =>
-        have hn0 : n = 0 := by simpa using heq.symm
-        simp [limRet, valOfTop, emptyOr, valOf, hn0]
+        by_cases hs : isSkip (f.val x) = true
+        · simp [gstep, treeOf, hap, hns, hs, dget, dhas, dset, valsOf, keyEq_idKey]
+        · have hs' : isSkip (f.val x) = false := by simpa using hs
+          simp [gstep, treeOf, hap, hns, hs', dget, dhas, dset, valsOf, keyEq_idKey]
       | cons y ys =>
-        have hn : (n == 0) = false := by simp at heq ⊢; omega
-        have htake : List.take n (y :: (ys ++ x :: xs)) = y :: ys := by
-          rw [← List.cons_append, ← heq]; exact List.take_left' rfl
-        simp [limRet, valOfTop, emptyOr, valOf, hn, htake]
+        by_cases hs : isSkip (f.val x) = true
+        · simp [gstep, treeOf, hap, hns, hs, dget, dhas, dset, keyEq_idKey, valsOf_cons_snoc]
+        · have hs' : isSkip (f.val x) = false := by simpa using hs
+          simp [gstep, treeOf, hap, hns, hs', dget, dhas, dset, keyEq_idKey, valsOf_cons_snoc]
+    · have hs' : isStop (f.val x) = true := by simpa [stopsAt] using hs
+      simp only [gstep, hap, hs', if_true]
+      exact ⟨_, rfl⟩
+  | .limit oid n sub, b, its, x, h, hef => by
+    obtain ⟨hlen, hsubef⟩ := eventFree_limit oid n sub its hef
+    obtain ⟨ih1, ih2⟩ := gstep_both sub b its x h.sub_limit hsubef
+    have hst : stopsAt (.limit oid n sub) its x = (decide (n ≤ its.length) || stopsAt sub its x) := rfl
+    refine ⟨fun hs => ?_, fun hs => ?_⟩
+    · rw [hst] at hs
+      simp only [Bool.or_eq_false_iff, decide_eq_false_iff_not, Nat.not_le] at hs
+      have hcnt : ¬ ((its.length : Int) + 1 > (n : Int)) := by omega
+      have hv : valOfC true (.limit oid n sub) (its ++ [x]) = valOfC true sub (its ++ [x]) :=
+        valOfC_limit true oid n sub (its ++ [x]) (by simp) (by simp; omega)
+      simp only [gstep, limit_unpack, hcnt, if_false, ih1 hs.2, limit_store, hv]
+    · by_cases hge : n ≤ its.length
+      · have hcnt : ((its.length : Int) + 1 > (n : Int)) := by omega
+        simp only [gstep, limit_unpack, hcnt, if_true]
+        exact ⟨_, rfl⟩
+      · have hcnt : ¬ ((its.length : Int) + 1 > (n : Int)) := by omega
+        have hsb : stopsAt sub its x = true := by rw [hst] at hs; simpa [hge] using hs
+        obtain ⟨t, ht⟩ := ih2 hsb
+        simp only [gstep, limit_unpack, hcnt, if_false, ht]
+        exact ⟨_, rfl⟩
+  | .nested g, b, its, x, h, _ => by
+    refine ⟨fun _ => ?_, fun hs => by simp [stopsAt] at hs⟩
+    obtain ⟨hseq, hin⟩ := h.inner (x := x) (by simp)
+    have hloop := loop_exact g (fun its' x' h' hef' => gstep_both g false its' x' h' hef')
+      ((iterOf x).getD []) [] (by simpa using hin) rfl
+    have hval : valOfC true (.nested g) (its ++ [x]) = valTopC g (cutEvent g ((iterOf x).getD [])) := by
+      simp [valOfC, valTopC]
+    rw [hval]
+    simp only [valTopC, emptyOr, List.isEmpty_nil, if_true, treeOf_nil] at hloop
+    cases x with
+    | list xs =>
+      simp only [iterOf, Option.getD_some] at hloop ⊢
+      simp only [gstep, iterOf, treeOf, hloop, valTopC, emptyOr, cutEvent] <;> rfl
+    | tuple xs =>
+      simp only [iterOf, Option.getD_some] at hloop ⊢
+      simp only [gstep, iterOf, treeOf, hloop, valTopC, emptyOr, cutEvent] <;> rfl
+    | _ => simp [isSeqV] at hseq
+  | .dict id kid key sub, b, its, x, h, hef =>
+    dict_both id kid key sub b its x h hef (fun its' h' hef' => gstep_both sub true its' x h' hef')
 
-/-- **top-level Limit(n)**: `Group(Limit(n, sub))` is `sub` over the first `n` items -/
-theorem limit_spec (oid n : Nat) (sub : GSpec) (items : List V) (h : Hyp false sub items) :
-    groupEval (.limit oid n sub) items = .ok (valOfTop (.limit oid n sub) items) := by
-  have := limit_loop oid n sub items [] (by simp) (by simpa using h)
-  simpa [groupEval, groupLoop, limRet, limTree, emptyOf] using this
-
-theorem first_spec (oid : Nat) (items : List V) (hp : ∀ x ∈ items, isStop x = false) :
-    groupEval (.agg oid .first) items = .ok (valOfTop (.agg oid .first) items) := by
-  cases items with
-  | nil => simp [groupEval, groupLoop, loopWith, valOfTop, emptyOr, emptyOf]
-  | cons x xs =>
-    have hx := hp x List.mem_cons_self
-    have h1 : gstep (.agg oid .first) x [] = .ok (x, [(.obj oid, .stop)]) := by
-      simp [gstep, aggStep, dhas, dget, dset]
-    cases xs with
-    | nil =>
-      simp only [groupEval, groupLoop]
-      unfold loopWith
-      rw [h1]
-      simp [hx, loopWith, valOfTop, emptyOr, valOf, refAgg]
-    | cons y ys =>
-      have h2 : gstep (.agg oid .first) y [(.obj oid, .stop)] = .ok (.stop, [(.obj oid, .stop)]) := by
-        simp [gstep, aggStep, dhas, dget, keyEq_obj]
-      simp only [groupEval, groupLoop]
-      unfold loopWith
-      rw [h1]
-      simp only [hx, Bool.false_eq_true, if_false]
-      unfold loopWith
-      rw [h2]
-      simp [isStop, valOfTop, emptyOr, valOf, refAgg]
+/-- **what Group computes**: the hand-written loop over the items before the first STOP event -/
+theorem groupEval_exact (s : GSpec) (items : List V) (h : Hyp false s items) :
+    groupEval s items = .ok (implTop s items) :=
+  groupEval_of_step s (fun its x hx hef => gstep_both s false its x hx hef) items h
 
 /-! ### the checker on the model's own observations -/
 
-theorem obs_beq_refl (v : V) : ((Obs.ok v : Obs) == Obs.ok v) = true := by
-  show Obs.beq _ _ = true
-  simp [Obs.beq, veq_refl]
+theorem obs_beq_ok (a b : V) : ((Obs.ok a : Obs) == Obs.ok b) = veq a b := rfl
 
 theorem covered_spec (g : GSpec) (items : List V) (hwf : wfRun g items = true) (hc : covered g items = true) :
-    groupEval g items = .ok (valOfTop g items) := by
-  cases g with
-  | limit oid n sub =>
-    simp only [covered, Bool.and_eq_true] at hc
-    exact limit_spec oid n sub items ⟨hwf, hc.2, hc.1⟩
-  | agg oid a =>
-    cases a with
-    | first =>
-      simp only [covered, List.all_eq_true, Bool.not_eq_true'] at hc
-      exact first_spec oid items hc
-    | _ =>
-      simp only [covered, Bool.and_eq_true] at hc
-      exact groupEval_spec _ items ⟨hwf, hc.2, hc.1⟩
-  | _ =>
-    simp only [covered, Bool.and_eq_true] at hc
-    exact groupEval_spec _ items ⟨hwf, hc.2, hc.1⟩
+    (observe (groupEval g items) == Obs.ok (valOfTop g items)) = true := by
+  simp only [covered, Bool.and_eq_true] at hc
+  rw [groupEval_exact g items ⟨hwf, hc.1.1, hc.1.2⟩]
+  exact hc.2
 
-theorem check_model (g : GSpec) :
-    ∀ (runs : List (List V)), (∀ r ∈ runs, wfRun g r = true → covered g r = true) →
-      checkC16 g runs (runs.map (fun r => observe (groupEval g r))) = true := by
-  intro runs h
-  simp only [checkC16, List.length_map, beq_self_eq_true, Bool.true_and, List.all_eq_true]
-  intro ro hro
-  rw [List.zip_map_right] at hro
-  simp only [List.mem_map] at hro
-  obtain ⟨⟨r1, r2⟩, hmem, rfl⟩ := hro
-  have h12 : r1 = r2 := by
-    have := List.of_mem_zip hmem
-    clear h
-    induction runs with
-    | nil => simp at hmem
-    | cons a as ih =>
-      simp only [List.zip_cons_cons, List.mem_cons, Prod.mk.injEq] at hmem
-      rcases hmem with ⟨rfl, rfl⟩ | hm
-      · rfl
-      · exact ih hm (List.of_mem_zip hm)
-  subst h12
-  have hr : r1 ∈ runs := (List.of_mem_zip hmem).1
-  by_cases hwf : wfRun g r1 = true
-  · simp only [Prod.map, id, hwf, Bool.not_true, Bool.false_or]
-    rw [covered_spec g r1 hwf (h r1 hr hwf)]
-    exact obs_beq_refl _
-  · simp [Prod.map, hwf]
+theorem all_zip_map {α β : Type} (f : α → β) (p : α × β → Bool) :
+    ∀ xs : List α, (xs.zip (xs.map f)).all p = xs.all (fun x => p (x, f x)) := by
+  intro xs
+  induction xs with
+  | nil => rfl
+  | cons x xs ih => simp [ih]
+
+theorem checkEval_model (g : GSpec) (its : List V) (h : wfRun g its = true → covered g its = true) :
+    checkEval g its (observeEval its (groupEval g its)) = true := by
+  simp only [checkEval, observeEval, veqList_refl, Bool.and_true]
+  by_cases hwf : wfRun g its = true
+  · simp [hwf, covered_spec g its hwf (h hwf)]
+  · simp [hwf]
+
+/-- a history of evaluations passes the checker when each of its evaluations is covered:
+    nothing an evaluation does depends on what ran before it -/
+theorem check_model (specs : List GSpec) (targets : List (List V)) (evals : List (Nat × Nat))
+    (hidx : ∀ e ∈ evals, e.1 < specs.length ∧ e.2 < targets.length)
+    (h : ∀ e ∈ evals, ∀ g its, specs[e.1]? = some g → targets[e.2]? = some its →
+      wfRun g its = true → covered g its = true) :
+    checkC16 specs targets evals (observeHistory specs targets evals) = true := by
+  simp only [checkC16, observeHistory, List.length_map, beq_self_eq_true, Bool.true_and]
+  rw [all_zip_map, List.all_eq_true]
+  intro e he
+  obtain ⟨h1, h2⟩ := hidx e he
+  have hg : specs[e.1]? = some specs[e.1] := List.getElem?_eq_getElem h1
+  have ht : targets[e.2]? = some targets[e.2] := List.getElem?_eq_getElem h2
+  simp only [hg, ht]
+  exact checkEval_model _ _ (h e he _ _ hg ht)
 
 end Glom.C16
